@@ -47,11 +47,12 @@ func (v *StructSchema) Merge(other *StructSchema, others ...*StructSchema) *Stru
 }
 
 // cloneShallow creates a shallow copy of the schema.
-// The new schema shares references to the transforms, tests and inner schema.
+// The new schema shares references to the inner schema. The transforms and tests are copied so that
+// adding to the clone never writes into the backing array of the original (or of another clone).
 func (v *StructSchema) cloneShallow() *StructSchema {
 	new := &StructSchema{
-		postTransforms: v.postTransforms,
-		tests:          v.tests,
+		postTransforms: append([]p.PostTransform(nil), v.postTransforms...),
+		tests:          append([]p.Test(nil), v.tests...),
 		required:       v.required,
 		schema:         v.schema,
 	}
